@@ -119,7 +119,8 @@ static unsigned arg_size(const uint8_t *arg_mem, char type)
             return 4;
         case 'S':
         case 's':
-            while(*++arg_pos);
+            //the string may be empty
+            while(*arg_pos) ++arg_pos;
             arg_pos += 4-(arg_pos-arg_mem)%4;
             return arg_pos-arg_mem;
         case 'b':
@@ -636,7 +637,8 @@ size_t rtosc_message_ring_length(ring_t *ring)
                 break;
             case 'S':
             case 's':
-                while(deref(++pos,ring));
+                //the string may be empty
+                while(deref(pos,ring)) ++pos;
                 pos += 4-(pos-aligned_pos)%4;
                 --toparse;
                 break;
